@@ -10,6 +10,67 @@ fn opt<T: std::fmt::Display>(v: Option<T>) -> Value {
     }
 }
 
+/// the value as (sign, decimal mantissa without trailing zeros, decimal exponent) of its shortest round-trip representation
+fn canon(v: Option<f64>) -> Value {
+    match v {
+        None => json!({"t": "none", "neg": false, "m": 0, "e": 0}),
+        Some(f) if f.is_nan() => json!({"t": "nan", "neg": false, "m": 0, "e": 0}),
+        Some(f) if f.is_infinite() => json!({"t": "inf", "neg": f < 0.0, "m": 0, "e": 0}),
+        Some(f) => {
+            let s = format!("{:e}", f.abs());
+            let (mant, exp) = s.split_once('e').unwrap_or((&s, "0"));
+            let frac = mant.split_once('.').map(|(_, fr)| fr.len()).unwrap_or(0) as i64;
+            let digits: String = mant.chars().filter(|c| *c != '.').collect();
+            let mut m = digits.parse::<i64>().unwrap_or(-1);
+            let mut e = exp.parse::<i64>().unwrap_or(0) - frac;
+            if m == 0 {
+                e = 0;
+            }
+            while m > 0 && m % 10 == 0 {
+                m /= 10;
+                e += 1;
+            }
+            if !(0..=2_000_000_000).contains(&m) {
+                m = -1;
+            }
+            json!({"t": "num", "neg": f.is_sign_negative(), "m": m, "e": e})
+        }
+    }
+}
+
+/// a string as attribute value and as element text: written to a document, loaded strictly, read back
+fn string_round_trip(s: &str) -> bool {
+    // a text of blanks only cannot be told from formatting white space and is read as no text (DESIGN 6.1)
+    if s.chars().all(|c| c == ' ') {
+        return true;
+    }
+    let model = AutosarModel::new();
+    let Ok(file) = model.create_file("s.arxml", AutosarVersion::LATEST) else { return false };
+    let mk = || -> Result<(Element, Element), AutosarDataError> {
+        let pkg = model.root_element().create_sub_element(ElementName::ArPackages)?.create_named_sub_element(ElementName::ArPackage, "p")?;
+        let sdg = pkg.create_sub_element(ElementName::AdminData)?.create_sub_element(ElementName::Sdgs)?.create_sub_element(ElementName::Sdg)?;
+        sdg.set_attribute_string(AttributeName::Gid, "g")?;
+        let sd = sdg.create_sub_element(ElementName::Sd)?;
+        Ok((sdg, sd))
+    };
+    let Ok((_sdg, sd)) = mk() else { return false };
+    // SD: text with preserved white space; its GID attribute is a plain string
+    if sd.set_attribute_string(AttributeName::Gid, s).is_err() || sd.set_character_data(s.to_string()).is_err() {
+        return false;
+    }
+    let Ok(text) = file.serialize() else { return false };
+    let m2 = AutosarModel::new();
+    if m2.load_buffer(text.as_bytes(), "s.arxml", true).is_err() {
+        return false;
+    }
+    let Some(sd2) = m2.elements_dfs().map(|(_, e)| e).find(|e| e.element_name() == ElementName::Sd) else { return false };
+    let a = sd2.attribute_value(AttributeName::Gid).and_then(|c| c.string_value());
+    let t = sd2.character_data().and_then(|c| c.string_value());
+    // in memory, too: formatting and parsing the value itself
+    // (leading / trailing blanks of a value whose type does not preserve white space are insignificant: DESIGN 6.1)
+    a.as_deref() == Some(s.trim_matches(' ')) && t.as_deref() == Some(s) && sd.character_data().and_then(|c| c.string_value()).as_deref() == Some(s)
+}
+
 pub fn run(input: &str, output: &str) -> Value {
     let fin = std::fs::File::open(input).unwrap();
     let mut out = std::io::BufWriter::new(std::fs::File::create(output).unwrap());
@@ -17,20 +78,36 @@ pub fn run(input: &str, output: &str) -> Value {
     for l in std::io::BufReader::new(fin).lines() {
         let l = l.unwrap();
         let Ok(c) = serde_json::from_str::<Value>(&l) else { continue };
-        let text = c["text"].as_str().unwrap_or("");
-        let cd = CharacterData::String(text.to_string());
-        let got = json!({
-            "i8": opt(cd.parse_integer::<i8>()), "u8": opt(cd.parse_integer::<u8>()), "i16": opt(cd.parse_integer::<i16>()), "u16": opt(cd.parse_integer::<u16>()),
-            "i32": opt(cd.parse_integer::<i32>()), "u32": opt(cd.parse_integer::<u32>()), "i64": opt(cd.parse_integer::<i64>()), "u64": opt(cd.parse_integer::<u64>()),
+        let text = crate::doc::decode(c["text"].as_str().unwrap_or(""));
+        let text = String::from_utf8_lossy(&text).to_string();
+        let kind = c["kind"].as_str().unwrap_or("int").to_string();
+        if kind == "str" {
+            writeln!(out, "{}", json!({"kind": "str", "text": c["text"], "inform": false, "finform": false, "exp": c["exp"], "got": {}, "fgot": [], "fexp": c["fexp"],
+                "fcanon": c["fexp"], "bexp": [], "bool": [], "panic": false, "same": string_round_trip(&text)})).unwrap();
+            n += 1;
+            continue;
+        }
+        let cd = CharacterData::String(text.clone());
+        let r = std::panic::catch_unwind(|| {
+            let got = json!({
+                "i8": opt(cd.parse_integer::<i8>()), "u8": opt(cd.parse_integer::<u8>()), "i16": opt(cd.parse_integer::<i16>()), "u16": opt(cd.parse_integer::<u16>()),
+                "i32": opt(cd.parse_integer::<i32>()), "u32": opt(cd.parse_integer::<u32>()), "i64": opt(cd.parse_integer::<i64>()), "u64": opt(cd.parse_integer::<u64>()),
+            });
+            let pf = cd.parse_float();
+            // the float interpretation of an integer text, if it is an integer
+            let fgot = match pf {
+                Some(f) if f.fract() == 0.0 && f.abs() < 1e15 => json!([f as i64]),
+                Some(_) => json!(["nonint"]),
+                None => json!([]),
+            };
+            (got, fgot, canon(pf), cd.parse_bool().map(|b| json!([b.to_string()])).unwrap_or(json!([])))
         });
-        // the float interpretation of an integer text, if it is an integer
-        let fgot = match cd.parse_float() {
-            Some(f) if f.fract() == 0.0 && f.abs() < 1e15 => json!([f as i64]),
-            Some(_) => json!(["nonint"]),
-            None => json!([]),
+        let (got, fgot, fcanon, b, panic) = match r {
+            Ok((a, b, c, d)) => (a, b, c, d, false),
+            Err(_) => (json!({}), json!([]), json!({"t": "none", "neg": false, "m": 0, "e": 0}), json!([]), true),
         };
-        writeln!(out, "{}", json!({"kind": "int", "text": text, "inform": c["inform"], "exp": c["exp"], "got": got, "fgot": fgot,
-            "bool": cd.parse_bool().map(|b| b.to_string()).unwrap_or_default(), "same": true})).unwrap();
+        writeln!(out, "{}", json!({"kind": kind, "text": c["text"], "inform": c["inform"], "finform": c["finform"], "exp": c["exp"], "got": got, "fgot": fgot,
+            "fexp": c["fexp"], "fcanon": fcanon, "bexp": c["bexp"], "bool": b, "panic": panic, "same": true})).unwrap();
         n += 1;
     }
     // format -> parse round trips of typed values through a document
@@ -42,7 +119,7 @@ pub fn run(input: &str, output: &str) -> Value {
         let cd = CharacterData::UnsignedInteger(v);
         let txt = cd.to_string();
         let back = CharacterData::String(txt.clone()).parse_integer::<u64>();
-        writeln!(out, "{}", json!({"kind": "fmt", "text": txt, "inform": true, "exp": {}, "got": {}, "fgot": [], "bool": "", "same": back == Some(v)})).unwrap();
+        writeln!(out, "{}", json!({"kind": "fmt", "text": txt, "inform": true, "finform": false, "exp": {}, "got": {}, "fgot": [], "fexp": {}, "fcanon": {}, "bexp": [], "bool": [], "panic": false, "same": back == Some(v)})).unwrap();
         n += 1;
     }
     for v in vals_f {
@@ -53,7 +130,7 @@ pub fn run(input: &str, output: &str) -> Value {
             Some(b) => (b.is_nan() && v.is_nan()) || (b == v && b.is_sign_negative() == v.is_sign_negative()),
             None => false,
         };
-        writeln!(out, "{}", json!({"kind": "fmt", "text": txt, "inform": true, "exp": {}, "got": {}, "fgot": [], "bool": "", "same": same})).unwrap();
+        writeln!(out, "{}", json!({"kind": "fmt", "text": txt, "inform": true, "finform": false, "exp": {}, "got": {}, "fgot": [], "fexp": {}, "fcanon": {}, "bexp": [], "bool": [], "panic": false, "same": same})).unwrap();
         n += 1;
     }
     // every enumeration item: text -> item -> text
@@ -69,6 +146,6 @@ pub fn run(input: &str, output: &str) -> Value {
             }
         }
     }
-    writeln!(out, "{}", json!({"kind": "fmt", "text": format!("{enum_n} enumeration items of element texts"), "inform": true, "exp": {}, "got": {}, "fgot": [], "bool": "", "same": enum_ok})).unwrap();
+    writeln!(out, "{}", json!({"kind": "fmt", "text": format!("{enum_n} enumeration items of element texts"), "inform": true, "finform": false, "exp": {}, "got": {}, "fgot": [], "fexp": {}, "fcanon": {}, "bexp": [], "bool": [], "panic": false, "same": enum_ok})).unwrap();
     json!({"records": n + 1})
 }
